@@ -272,6 +272,8 @@ func runC04(r *R) {
 		}
 	}
 
+	c04Conditions(r)
+
 	// ---- R7, R9, R10 over every function of unix_volume.go
 	r.Rule("C04-R7", "unix_volume.go deleters/renamers: only temp cleanup in WriteBlock, Trash (R1), EmptyTrash (R6), Untrash (source named <loc>.trash.*, destination blockPath(loc))", 4)
 	r.Rule("C04-R9", "every Rename onto a block path is preceded by os.Chtimes(source, time.Now()) == nil (an acknowledged PUT is never later represented by an older timestamp)", 2)
